@@ -137,8 +137,8 @@ def toy_tamper_corr(ctx):
                   nontrivial=True, kind="toy-%s-%s" % (mname, kind))
         cases.append(("(%s, %s, %s, %s)" % (coq(seq0), coq(kex), coq_cfg(cfg), coq([list(c) for c in chunks])), out))
         descs.append(desc)
-    bad = ctx.model_mismatches("run_recv", "(Z * bool * tcfg * list (list Z))", cases,
-                               imports="From PV Require Import C01 C02.", shard=60)
+    bad = c01.safe_mismatches(ctx, "run_recv", "(Z * bool * tcfg * list (list Z))", cases,
+                              imports="From PV Require Import C01 C02.", shard=60)
     for i in bad[:3]:
         ctx.disagree("read_message on a tampered stream differs from the model", case=descs[i], impl=cases[i][1])
     if descs:
@@ -248,6 +248,76 @@ def real_exhaustive(ctx, rec):
         check_real(ctx, rec, bb, ("multi", t), chunks)
 
 
+def real_large(ctx, suite):
+    """Large packets (> 32 KiB and > 64 KiB): sampled single-byte faults incl. the last blocks / bytes,
+    positions around 32 KiB multiples and the tag."""
+    from paramiko.packet import Packetizer
+    rng = ctx.rng
+    keys = real_keys(rng, suite)
+    cap = CaptureSocket()
+    s = Packetizer(cap)
+    s._initial_kex_done = True
+    real_install(s, suite, keys, True, False)
+    payloads = [bytes([rng.randrange(1, 256)]) + rng.randbytes(n - 1)
+                for n in (rng.randrange(33000, 41000), rng.randrange(66000, 70001), 20)]
+    wires = []
+    for pl in payloads:
+        n0 = len(cap.sent)
+        s.send_message(mkmsg(pl))
+        wires.append(b"".join(cap.sent[n0:]))
+    rec = {"suite": suite, "zlib": False, "keys": keys, "seq0": 0, "sent": payloads, "wires": wires}
+    stream = b"".join(wires)
+    if not check_real(ctx, rec, stream, ("none", 0)):
+        return
+    start = 0
+    for k, w in enumerate(wires[:2]):
+        n = len(w)
+        from paramiko.transport import Transport
+        msz = 16 if suite[1] is None else Transport._mac_info[suite[1]]["size"]
+        pos = set(range(n - msz - 40, n)) | set(range(0, 8))
+        for m in (32768, 65536):
+            pos |= set(range(m - 8, m + 8))
+        pos |= {rng.randrange(n) for _ in range(24 if ctx.thorough else 6)}
+        for i in sorted(x for x in pos if 0 <= x < n):
+            j = start + i
+            v = stream[j] ^ (1 << rng.randrange(8))
+            if not check_real(ctx, rec, stream[:j] + bytes([v]) + stream[j + 1:], ("flip-large", j),
+                              max_delivered=k):
+                return
+        start += n
+
+
+def hmac_oracle(ctx):
+    """packet.compute_hmac must be HMAC over the whole message (stdlib reference), any length."""
+    import hmac
+    from hashlib import md5, sha1, sha256, sha512
+    from paramiko import packet
+    rng = ctx.rng
+    for n in [0, 1, 63, 64, 65, 4096, 32767, 32768, 32769, 40000, 65535, 65536, 65537, 70000, 98304, 98305,
+              rng.randrange(1, 140000)]:
+        msg = rng.randbytes(n)
+        for dg in (md5, sha1, sha256, sha512):
+            key = rng.randbytes(dg().digest_size)
+            got = packet.compute_hmac(key, msg, dg)
+            want = hmac.new(key, msg, dg).digest()
+            ctx.count(("hmac", n, dg().name, key), kind="compute-hmac")
+            if got != want:
+                # find a byte the result does not depend on
+                blind = None
+                for i in (n - 1, n // 2, n - 40, 32768, 65536):
+                    if 0 <= i < n:
+                        m2 = msg[:i] + bytes([msg[i] ^ 1]) + msg[i + 1:]
+                        if packet.compute_hmac(key, m2, dg) == got:
+                            blind = i
+                            break
+                ctx.fail("compute-hmac-not-over-whole-message",
+                         "packet.compute_hmac is not the HMAC of the whole message (bytes left unauthenticated)",
+                         case={"len": n, "digest": dg().name, "key": key, "msg_sha256": sha256(msg).hexdigest(),
+                               "byte_not_covered": blind},
+                         expected=want, observed=got)
+                return
+
+
 def real_search(ctx):
     rng = ctx.rng
     suites = real_suites()
@@ -265,6 +335,10 @@ def real_search(ctx):
         zlib_on = ctx.thorough and si % 5 == 4
         rec = real_record(rng, suite, zlib_on, rng.randrange(4, 7) if ctx.thorough else 4)
         real_exhaustive(ctx, rec)
+    # large packets: one classic, one ETM, one AEAD suite (all CTR/CBC x MAC suites in the thorough tier)
+    large = chosen if ctx.thorough else chosen[:3]
+    for suite in large:
+        real_large(ctx, suite)
     ctx.notes.append("exhaustive single-byte faults on suites: %s" % [list(s) for s in chosen])
 
 
@@ -273,7 +347,9 @@ def run(ctx):
     rng = ctx.rng
     ctx.rule = ("seeded generator (random.Random('C02-<seed>')): toy receivers on recorded toy streams with one "
                 "random edit (flip/delete/insert/swap/drop/replay/truncate/multi/length-field) and random "
-                "fragmentation; real suites (quick: 3-4 rotating by seed incl. classic, ETM, GCM; thorough: all "
+                "fragmentation; compute_hmac vs stdlib HMAC on lengths around 32 KiB multiples; large packets (33-41 KB, "
+                "66-70 KB) with faults sampled at the last 40 bytes before the tag, the tag, the first 8, around 32768/65536 and random; real "
+                "suites (quick: 3-4 rotating by seed incl. classic, ETM, GCM; thorough: all "
                 "cipher x MAC): streams of 4-6 messages, every byte position x {flip low, flip high, zero, delete, "
                 "insert}, all packet drops/replays/swaps, seeded multi-fault edits; every case distinct")
     ctx.trusted += ["model coq/Model/C01.v (shared with C01) is hand-written; tied to paramiko/packet.py by the "
@@ -293,6 +369,7 @@ def run(ctx):
             ctx.fail("cteq-wrong", "constant_time_bytes_eq(a, b) differs from a == b", case={"a": a, "b": b},
                      expected=(a == b), observed=util.constant_time_bytes_eq(a, b))
 
+    hmac_oracle(ctx)
     real_search(ctx)
     ctx.exhaustive = False
 
